@@ -58,7 +58,7 @@ CONFIG = {
     'quick': {'shards': 16, 'cases': 40, 'timeout': 600, 'floor': 128},
     'thorough': {'shards': 32, 'cases': 1400, 'timeout': 5400, 'floor': 8960},
 }
-REQUIRED = ['mh_runs_after_an_earlier_call_in_another_order', 'lik_std_checked', 'lik_whiten_checked', 'lik_warton_checked', 'lik_whiten_warton_checked', 'lik_go_checked',
+REQUIRED = ['mh_runs_under_scheduled_client', 'mh_runs_after_an_earlier_call_in_another_order', 'lik_std_checked', 'lik_whiten_checked', 'lik_warton_checked', 'lik_whiten_warton_checked', 'lik_go_checked',
             'lik_go_indefinite_checked', 'lik_mean_checked', 'lik_variance_checked', 'lik_checked_inside_runs',
             'tf_roundtrip_type0', 'tf_roundtrip_type1', 'tf_roundtrip_type2', 'tf_roundtrip_type3',
             'mh_transitions_checked', 'mh_ratio_values_checked', 'mh_accepted', 'mh_rejected', 'mh_zero_prior_proposals',
@@ -537,8 +537,28 @@ def run_mh(ctx, case):
     Sigma = np.outer(sd, sd) * C
 
     del LOG[:]
+    ckw = {}
+    if case['batch_size'] < case['n_sim_round'] and case['seed'] % 2 == 0:
+        # several batches per round under a schedule-controlled client with more than one slot: batches of the next round
+        # must not be simulated (at the old parameters) before the current round has been processed - check_sims sees them
+        from vmon.clients import REGIMES, ScheduledClient
+        mpb = 2 + case['seed'] % 3
+        sched = ScheduledClient(case['seed'] % 9973, 1 + case['seed'] % 4, REGIMES[case['seed'] % len(REGIMES)], mpb, prop='C20')
+        elfi.client.set_client(sched)
+        ckw = {'max_parallel_batches': mpb}
+        ctx.event('mh_runs_under_scheduled_client')
+        ctx.distinct('mh_schedule_regime', sched.regime)
+    try:
+        return _run_mh_body(ctx, case, elfi, BSL, pm, m, truth, k, created, order, rs, feats, d, variant, W, pen, lik, misspec, bound, p0, Sigma, ckw)
+    finally:
+        if ckw:
+            import elfi.clients.native as nat
+            elfi.client.set_client(nat.Client())
+
+
+def _run_mh_body(ctx, case, elfi, BSL, pm, m, truth, k, created, order, rs, feats, d, variant, W, pen, lik, misspec, bound, p0, Sigma, ckw):
     bsl = elfi.BSL(m, n_sim_round=case['n_sim_round'], feature_names=feats if case['features_given'] else None,
-                   batch_size=case['batch_size'], seed=case['seed'] % (2 ** 31), likelihood=lik)
+                   batch_size=case['batch_size'], seed=case['seed'] % (2 ** 31), likelihood=lik, **ckw)
     bsl.random_state = RecRS(case['seed'] % (2 ** 31))
     inner = bsl._get_mh_ratio
 
